@@ -98,7 +98,7 @@ class PausingFactory(RecFactory):
 
         def dataReceived(data):
             orig(data)
-            if drv is not None and not drv.stop and drv.budget["inbound"] > 0 and drv.rng.random() < 0.08:
+            if drv is not None and not drv.stop and drv.budget["inbound"] > 0 and drv.rng.random() < drv.pause_prob:
                 drv.budget["inbound"] -= 1
                 drv.inbound_calls += 1
                 drv.pauses_in_data += 1
@@ -132,6 +132,8 @@ class Driver:
                        "inbound": rng.randint(0, 12), "ticks": 120, "close_with": rng.choice([0, 0, 1, 2, 5])}
         self.inbound_calls = 0
         self.stop = False
+        self.pause_prob = 0.08
+        self.send_and_close = 0
 
     def side_of(self, proto):
         return proto.name[0]
@@ -239,6 +241,34 @@ class Driver:
                     except Exception as e:
                         self.api_errors.append(("loseConnection", q.proto.name, type(e).__name__, repr(e)[:120]))
                 acts.append((("app", side, "close-with-producer"), close_with))
+            if live and self.send_and_close > 0:
+                # the last data and the CLOSE leave together, so the receiving application may pause inside the very
+                # dataReceived after which the subchannel closes
+                mine = [p for p in self.opened[side] if self.alive(p)]
+                if mine:
+                    def sac(mine=mine):
+                        self.send_and_close -= 1
+                        p = rng.choice(mine)
+                        try:
+                            p.transport.write(b"%s:last:" % p.name.encode() + rng.randbytes(50))
+                            p.closed_local = True
+                            p.transport.loseConnection()
+                        except Exception as e:
+                            self.api_errors.append(("send-and-close", p.name, type(e).__name__, repr(e)[:120]))
+                    acts.append((("app", side, "send-and-close"), sac))
+                if len(mine) >= 2:
+                    def burst(mine=mine):
+                        # data for several subchannels and the CLOSE of the last one leave in one flush
+                        self.send_and_close -= 1
+                        ps = rng.sample(mine, min(len(mine), rng.randint(2, 3)))
+                        try:
+                            for p in ps:
+                                p.transport.write(b"%s:burst:" % p.name.encode() + rng.randbytes(30))
+                            ps[-1].closed_local = True
+                            ps[-1].transport.loseConnection()
+                        except Exception as e:
+                            self.api_errors.append(("burst", ps[-1].name, type(e).__name__, repr(e)[:120]))
+                    acts.append((("app", side, "burst"), burst))
             if live and self.budget["inbound"] > 0:
                 def inb(live=live):
                     self.budget["inbound"] -= 1
@@ -265,7 +295,9 @@ class Driver:
 
 def cases(tier, seed, prep=None):
     n = 330 if tier == "quick" else 11000
-    return [{"seed": seed * 1000003 + 1500000 + i, "cuts": [0, 0, 1, 2][i % 4]} for i in range(n)]
+    out = [{"seed": seed * 1000003 + 1500000 + i, "cuts": [0, 0, 1, 2][i % 4]} for i in range(n)]
+    out += [{"seed": seed * 1000003 + 1550000 + i, "cuts": [0, 0, 1][i % 3], "multipause": True} for i in range(120 if tier == "quick" else 4000)]
+    return out
 
 
 def run_case(spec):
@@ -276,7 +308,18 @@ def run_case(spec):
     r.wire_capacity = rng.choice([200, 5000, 2 ** 18])
     dp = DilatedPair(world, ping_interval=rng.choice([None, 5.0]))
     drv = Driver(dp, rng)
-    sch = Scheduler(world, drv, strategy=rng.choice(["random", "pct", "appfirst", "netfirst"]), chunking=rng.choice(["whole", "mixed"]))
+    if spec.get("multipause"):
+        # several subchannels, applications that pause often and inside dataReceived, openers that send-and-close
+        drv.budget["open"] = {"A": 3, "B": 3}
+        drv.budget["inbound"] = rng.randint(10, 25)
+        drv.budget["reg"] = rng.randint(0, 2)
+        drv.pause_prob = 0.7
+        drv.send_and_close = rng.randint(3, 6)
+    if spec.get("multipause"):
+        # application steps first and whole-buffer delivery: records of several subchannels arrive in one chunk
+        sch = Scheduler(world, drv, strategy=rng.choice(["appfirst", "appfirst", "random"]), chunking="whole")
+    else:
+        sch = Scheduler(world, drv, strategy=rng.choice(["random", "pct", "appfirst", "netfirst"]), chunking=rng.choice(["whole", "mixed"]))
     stats = {"probes": 0, "cuts": 0}
     viols = {}
 
